@@ -28,7 +28,7 @@ def boundary_cases(ctx):
 def run(ctx):
     ctx.rule = ('random (type, value) from the universe plus forced length boundaries (127/128, 255/256, 65535/65536, 1000/1001 octets); '
                 'DER and CER bytes compared with Spec.X690.der/cer evaluated in Coq; BER (definite, indefinite, chunked) and CER bytes '
-                'read back by Spec.X690.read; non-trivial = constructed/tagged type or a forced boundary')
+                'read back by Spec.X690.read; DER/CER called with caller-supplied defMode/maxChunkSize must give the same octets; long strings in the content shapes that matter to segmentation (all zero, zeros then data, lone bits at the boundary); non-trivial = constructed/tagged type or a forced boundary')
     cases = codec.gen_cases(ctx, ctx.n(150, 3000), depth=3, any_der=True)
     cases += codec.leaf_boundary_cases(ctx, every=3 if ctx.tier == 'quick' else 1)
     cases += codec.presence_grid_cases(ctx, every=2 if ctx.tier == 'quick' else 1)
@@ -42,6 +42,7 @@ def run(ctx):
         except Exception: ctx.stats['set_choice_unbuildable'] += 1
     nrandom = len(cases)
     cases += boundary_cases(ctx)
+    cases += codec.long_string_cases(ctx, every=2 if ctx.tier == 'quick' else 1)
     exprs, meta = [], []
     search_only = getattr(ctx, 'search_only', False)
     for ci, c in enumerate(cases):
@@ -60,6 +61,17 @@ def run(ctx):
             if not search_only:
                 exprs.append(codec.enc_expr(cdc, True, 0, c, e))
                 meta.append({'kind': 'model', 'codec': cdc, 'T': c.T, 'v': c.v})
+            # the canonical encoders fix their own mode: whatever defMode / maxChunkSize the caller passes, same octets
+            if (ci + ctx.seed) % (3 if ctx.tier == 'quick' else 1) == 0 or ci >= nrandom:
+                for kw in (dict(defMode=False), dict(maxChunkSize=4), dict(defMode=False, maxChunkSize=1), dict(defMode=True, maxChunkSize=1000)):
+                    e2 = I.run_encode(cdc, c.obj, **kw)
+                    ctx.case((cdc, str(kw), c.cty, c.cval), True)
+                    ctx.stats['caller options passed to ' + cdc] += 1
+                    if e2[:2] != e[:2]:
+                        ctx.prop_fail('%s output depends on the options the caller passes (%s)' % (cdc, kw),
+                                      {'kind': 'options', 'codec': cdc, 'options': kw, 'T': c.T, 'v': c.v,
+                                       'plain': e[1].hex()[:400], 'with_options': e2[1].hex()[:400] if e2[0] == 'ok' else e2[1]})
+                        break
         # forced long strings are not cut into tiny segments (tens of thousands of TLVs)
         small_chunk = ctx.rng.choice([1, 3, 7]) if ci < nrandom else 1000
         for defm, chunk in ((True, 0), (False, 0), (False, small_chunk), ('CER', 0)):
